@@ -29,10 +29,16 @@ package relmod
 //@ func parseRestPath
 //@   pure
 //@   ensures [never-fails] result1 == nil
+// The type of a return payload is resolved against the application that owns the return statement: it is produced
+// by unpackType during this very call, with this call's application name (an unqualified reference means a type of
+// the owning application). `pure` is an assumption here (the arr.ai evaluation inside is opaque): the frame
+// obligations of the opaque calls stay undecided.
 //@ func parseReturnPayload
 //@   pure
 //@   maypanic
-//@   trusted
+//@   assert @call:arrai/relmod.unpackType [type-resolved-against-the-owning-application] arg1 == appName
+//@   ghostset @call:arrai/relmod.unpackType unpacked
+//@   ensures [returned-type-was-resolved-in-this-call] result0.Type != nil ==> ghost("unpacked")
 
 // Tags, annotations and source contexts of one construct: one tag row per tag, one annotation row per annotation;
 // the rows already present are kept and nothing else is written.
